@@ -474,21 +474,9 @@ func c14Clear(c *core.Ctx) {
 	uf := c.MustFn(rule, "sync", "", "UnhaltIfAffectedRows")
 	if uf != nil && len(uf.Params) == 4 {
 		haltedP, rowsP := uf.Params[0], uf.Params[3]
-		gt := core.IfEdgesWhere(uf, func(v ssa.Value) bool {
-			b, ok := v.(*ssa.BinOp)
-			if !ok {
-				return false
-			}
-			if b.Op == token.GTR && b.X == ssa.Value(rowsP) {
-				z, ok := core.ConstInt(b.Y)
-				return ok && z == 0
-			}
-			if b.Op == token.LSS && b.Y == ssa.Value(rowsP) {
-				z, ok := core.ConstInt(b.X)
-				return ok && z == 0
-			}
-			return false
-		}, true)
+		// rowsAffected > 0 in any written form (x > 0, 0 < x, !(x <= 0), x >= 1, …)
+		gt := core.RelEdges(uf, core.IsValue(rowsP), core.IsConstInt(0), token.GTR)
+		gt = append(gt, core.RelEdges(uf, core.IsValue(rowsP), core.IsConstInt(1), token.GEQ)...)
 		stores := 0
 		core.Instrs(uf, func(i ssa.Instruction) {
 			st, ok := i.(*ssa.Store)
